@@ -103,8 +103,15 @@ def install(B, LenV):
                     return base is not None and name in kinds[base]
                 return False        # Sequence, Mapping, Set ...: by inheritance or registration only
             if name == "Hashable":
-                hm, owner = cls.lookup("__hash__")
-                return hm is not None or owner is None
+                # a class that defines __eq__ without __hash__ has __hash__ = None (as check_hashable has it)
+                for k_ in cls.mro:
+                    if k_.builtin:
+                        break
+                    if "__hash__" in k_.dict:
+                        return k_.dict["__hash__"] is not None
+                    if "__eq__" in k_.dict:
+                        return False
+                return True
             return all(cls.lookup(d_)[0] is not None for d_ in dunders)
         raise Unknown(f"isinstance({type(o).__name__} value, {name})")
 
@@ -407,14 +414,14 @@ def install(B, LenV):
 
     @method
     def f_any(self, I, x):
-        for i in I.iterate(x):
+        for i in (I.live_iter(x) if type(x).__name__ == "GenV" else I.iterate(x)):      # stops at the first hit: the rest of a generator is never run
             if I.truth(i):
                 return True
         return False
 
     @method
     def f_all(self, I, x):
-        for i in I.iterate(x):
+        for i in (I.live_iter(x) if type(x).__name__ == "GenV" else I.iterate(x)):
             if not I.truth(i):
                 return False
         return True
